@@ -529,6 +529,7 @@ def stage_sweep(ctx, rec, aead):
     sweep_cases, sweep_meta, hcases, hmeta, vcases, gcases = [], [], [], [], [], []
     nsess = ncompleted = napplied = stalls = 0
     fam_done = {}
+    control_failed = []
     for kex in methods:
         fam = W.family_of(kex)
         cfg = sweep_cfg(kex)
@@ -538,7 +539,10 @@ def stage_sweep(ctx, rec, aead):
         nsess += 1
         completed, vc, vs = judge(ctx, r, cfgdesc, None, aead, fam)
         if not (r.c_done and r.s_done):
-            ctx.broke('control:' + kex, f'unedited handshake did not complete: client {r.c_exc} stalled={r.stalled}')
+            control_failed.append(kex)
+            ctx.log(f'unedited handshake with {kex} did not complete: client {r.c_exc} stalled={r.stalled}')
+            if kex in methods[:3] or len(control_failed) > max(1, len(methods) // 4):
+                ctx.broke('control:' + kex, f'unedited handshake did not complete: client {r.c_exc} stalled={r.stalled}')
             continue
         ncompleted += 1
         for who, v in (('c', vc), ('s', vs)):
@@ -572,8 +576,10 @@ def stage_sweep(ctx, rec, aead):
             byte_specs = [['byte', s_, wi, o, rng.choice([1, 0x80, 0xff, 0x20])] for s_, wi, o in rng.sample(allpos, min(len(allpos), 14))]
         if fam == 'gex' and kex not in fam_done.get('gexold', ()):
             specs.append(['gex_old'])
+        mstalls = msess = 0
         for spec in specs + byte_specs:
-            if stalls > 40:
+            if mstalls > 40 and mstalls * 3 > msess:      # circuit breaker: most sessions hang (cheap, but pointless)
+                ctx.count('sweep.breaker')
                 break
             gex_old = spec[0] == 'gex_old'
             rec.gex_old = gex_old
@@ -589,6 +595,8 @@ def stage_sweep(ctx, rec, aead):
             completed, vc, vs = judge(ctx, r, cfgdesc, spec, aead, fam)
             ncompleted += completed
             stalls += r.stalled
+            mstalls += r.stalled
+            msess += 1
             ctx.count('sweep.%s.%s' % (spec[0], 'completed' if completed else ('stalled' if r.stalled else 'failed')))
             exact = (not gex_old) and is_exact(fam, spec)
             same = W.bound_part(vc) == W.bound_part(vs)
@@ -625,6 +633,7 @@ def stage_sweep(ctx, rec, aead):
     ctx.log(f'sweep: {nsess} sessions, {napplied} edits applied, {ncompleted} completed, {stalls} stalled; '
             f'{len(sweep_cases)} sweep cases, {len(hcases)} hash cases for Coq')
     co = ctx.cov['oracle']
+    co['methods_without_working_control'] = control_failed
     co.update(sweep_sessions=nsess, sweep_edits_applied=napplied, sweep_completed=ncompleted, sweep_stalled=stalls)
     bad = ctx.coq_cases('sweep', IMPORTS, 'chk_sweep', sweep_cases, ty='view * list vdiff * bool * bool', shard=40)
     if bad:
@@ -678,8 +687,8 @@ def stage_negotiate(ctx, rec, aead):
     cases, meta = [], []
     okc = failc = 0
 
-    def pick(p, lo=1):
-        k = rng.randint(lo, len(p))
+    def pick(p, lo=None):
+        k = rng.randint(max(1, len(p) // 2) if lo is None else lo, len(p))
         return rng.sample(p, k)
     for i in range(n):
         c, s = {}, {}
@@ -696,7 +705,7 @@ def stage_negotiate(ctx, rec, aead):
             c['enc'] = [a[0]] + [e for e in c['enc'] if e != a[0]]
             if a[0] not in s['enc'] and rng.random() < 0.8:
                 s['enc'].append(a[0])
-        skeys = pick(hk_keys)
+        skeys = pick(hk_keys, 1)
         c['hostkey'] = pick(hk_algs)
         if disjoint == 'hostkey':
             skeys = ['ssh-ed25519']
